@@ -13,6 +13,8 @@ INFO = {
                    "data-dependent branch or operation, both of which change the DAG / path set. R04-3: the byte order of "
                    "serialize_proof_values, its decoder and the verifier's public-input order are mutually consistent.",
     "r04_4": "R04-4: the native proving entry points publish exactly serialize_proof_values(proof_values_from_witness(W)) of the witness they prove",
+    "r04_7": "R04-7 (shared with C11): the C proving entry points publish exactly the bytes the method produced, in a buffer of their own",
+    "r04_8": "R04-8 (shared with C09 R09-4): the hash of the formulas has the Poseidon permutation shape",
     "r04_6": "R04-6 (shared with C05 R05-1): the witness calculation behind the circuit's outputs reaches no process-wide or thread-local state",
     "r04_5": "R04-5 (shared with C20 R20-4): the circuit's outputs are computed from the witness's own inputs: each named input vector is placed whole at its declared offset under an exact length test, the evaluator dispatches to the same-named operators, the outputs are the declared output signals",
     "not_decided": "equality with positions 1..5 of the circuit witness (needs evaluating the witness graph: numeric)",
@@ -56,6 +58,25 @@ def run(ctx):
     c05.check_purity(sub6, ctx.fb("default"))
     for r in sub6.results:
         (ctx.ok if r.status == "ok" else ctx.fail)("R04-6", r.instance, r.reason, r.loc)
+    # R04-7 (shared with C11): "published" includes the C surface: the proving wrappers publish exactly the bytes the method
+    # produced, in a buffer of their own (R11-3)
+    from . import c11
+    k7 = 0
+    for w in c11.wrappers(ctx.fb("default")):
+        if w["name"] in ("prove", "generate_rln_proof", "generate_rln_proof_with_witness"):
+            sub7 = _Ctx2(ctx.pid, ctx.tier)
+            c11.check_wrapper(sub7, ctx.fb("default"), w, "default")
+            k7 += 1
+            for r in sub7.results:
+                (ctx.ok if r.status == "ok" else ctx.fail)("R04-7", r.instance, r.reason, r.loc)
+    ctx.floor("proving-ffi-wrappers", k7, 3)
+    # R04-8 (shared with C09 R09-4): the H of the formulas is the Poseidon permutation shape (dense linear layer on every state,
+    # no value-dependent branch)
+    from . import c09
+    sub8 = _Ctx2(ctx.pid, ctx.tier)
+    c09.check_shape(sub8, ctx.fb("default"))
+    for r in sub8.results:
+        (ctx.ok if r.status == "ok" else ctx.fail)("R04-8", r.instance, r.reason, r.loc)
     fx = ctx.fb("fixtures")
     from ..main import Ctx
     for fn, rule, f in [("pvfw_region_branch", "R04-1", check_pvfw), ("pvfw_x_in_nullifier", "R04-1", check_pvfw),
